@@ -41,6 +41,39 @@ def exec (t : ThreadId) : Body → CtxState → CtxState × Bool × List Ctx
     let (s1, ok, r) := exec t body (s.set t (some p))
     (s1.set t old, ok, r)                    -- `__exit__` runs on every path and restores the previous context
 
+/-! ### the same context manager as a machine of primitive operations, for arbitrary interleavings of threads -/
+
+/-- `enter`: `__enter__` of a fresh `inject(patches)` in thread `t`; `exit`: `__exit__` of the innermost manager the thread
+    still holds; `read`: what the thread sees -/
+inductive Op where
+  | enter (t : ThreadId) (patches : List (String × String))
+  | exit (t : ThreadId)
+  | read (t : ThreadId)
+  deriving Repr
+
+structure OpState where
+  ctx : CtxState := {}
+  /-- per thread: the `_old` values of the managers it has entered and not yet left, innermost first -/
+  olds : List (ThreadId × List Ctx) := []
+  deriving Repr
+
+def OpState.stack (s : OpState) (t : ThreadId) : List Ctx := ((s.olds.find? (·.1 == t)).map (·.2)).getD []
+def OpState.setStack (s : OpState) (t : ThreadId) (st : List Ctx) : OpState :=
+  { s with olds := (t, st) :: s.olds.filter (·.1 != t) }
+
+def stepOp (s : OpState) : Op → OpState × Option Ctx
+  | .enter t p => ({ (s.setStack t (s.ctx.get t :: s.stack t)) with ctx := s.ctx.set t (some p) }, none)
+  | .exit t =>
+    match s.stack t with
+    | [] => (s, none)
+    | old :: rest => ({ (s.setStack t rest) with ctx := s.ctx.set t old }, none)
+  | .read t => (s, some (s.ctx.get t))
+
+def runOps (ops : List Op) : OpState × List Ctx :=
+  ops.foldl (fun (acc : OpState × List Ctx) op =>
+    let (s', r) := stepOp acc.1 op
+    (s', match r with | some c => acc.2 ++ [c] | none => acc.2)) ({}, [])
+
 /-- a schedule interleaves atomic steps of independent pipelines, one pipeline per thread -/
 structure Step where
   thread : ThreadId
